@@ -220,8 +220,9 @@ type C12Case struct {
 	L []RS `json:"rules"`
 }
 
-func genC12Rule(t *rapid.T) RS {
-	kind := pick(t, "kind", abi3Kinds)
+func genC12Rule(t *rapid.T) RS { return genC12RuleOfKind(t, pick(t, "kind", abi3Kinds)) }
+
+func genC12RuleOfKind(t *rapid.T, kind string) RS {
 	r := GenRule(t, kind, GenOpt{V: c12Vocab, Comments: chance(t, "withcomment", 4)})
 	switch kind {
 	case "unix":
@@ -357,11 +358,20 @@ func TestC12_Blocks(t *testing.T) {
 			r := genC12Rule(t)
 			if len(l) > 0 && chance(t, "neardup", 2) {
 				base := l[rapid.IntRange(0, len(l)-1).Draw(t, "dupof")].Clone()
+				if base.Kind != r.Kind {
+					r = genC12RuleOfKind(t, base.Kind) // a near-duplicate is of the same kind
+				}
 				if base.Kind == r.Kind {
 					keys := sortedKeys(r.F)
 					if len(keys) > 0 {
 						k := keys[rapid.IntRange(0, len(keys)-1).Draw(t, "dupfield")]
 						base.F[k] = r.F[k]
+						if chance(t, "twofields", 2) {
+							// rules that agree in everything but two fields (access and set of a
+							// signal rule, say) must not be folded into one
+							k2 := keys[rapid.IntRange(0, len(keys)-1).Draw(t, "dupfield2")]
+							base.F[k2] = r.F[k2]
+						}
 					}
 					r = base
 				}
